@@ -21,6 +21,10 @@ What it demands (each failure is reported with a reason):
   before `First`, offsets strictly increasing and inside the data; a type-2 entry `(s, i)` for
   number `n` requires that stream `s` is an in-use generation-0 stream, `i < N` and pair `i` names
   `n`; members are not streams and not bare references;
+* the body is exactly the in-use objects in the order of their offsets, separated only by white
+  space and comments (no object without an entry, none numbered at or above `/Size`), followed by
+  the cross-reference section and, after white space only, `startxref`; an xref stream's own
+  number is below `/Size` and its `/Length` is direct;
 * `/Root` is an indirect reference to an in-use dictionary with `/Type /Catalog`.
 
 Inflate is a parameter: `inflate : Bytes → Option Bytes` (the driver passes a table produced by
@@ -399,7 +403,7 @@ def tableSections : Nat → Bytes → Table → R (Table × Bytes)
     | _, _ => .error "xref table: bad subsection header"
 
 /-- §7.5.4 + §7.5.5 table and trailer dictionary -/
-def readTable (inp : Bytes) : R (Table × List (Bytes × SObj)) :=
+def readTable (inp : Bytes) : R (Table × List (Bytes × SObj) × Bytes) :=
   if !hasPrefix (bytesOfString "xref") inp then .error "xref table: keyword missing" else
   let r0 := inp.drop 4
   let e := eolLen r0
@@ -410,7 +414,7 @@ def readTable (inp : Bytes) : R (Table × List (Bytes × SObj)) :=
     match skipWs r1 with
     | 60 :: 60 :: r2 =>
       (match parseDict (objFuel r2) (skipWs r2) with
-       | .ok (d, _) => .ok (t.reverse, d)
+       | .ok (d, r3) => .ok (t.reverse, d, r3)
        | .error er => .error ("trailer: " ++ er))
     | _ => .error "trailer: dictionary missing"
 
@@ -421,6 +425,7 @@ structure IObj where
   gen : Nat
   val : SObj
   stream : Option (Nat × Nat)   -- offset and length of the stream data in the file
+  next : Nat := 0               -- offset of the first byte after `endobj`
   deriving Repr, Inhabited
 
 /-- `N G obj` exactly at the start of `inp`: number, generation, rest after the keyword -/
@@ -446,11 +451,10 @@ def objHeader (inp : Bytes) : R (Nat × Nat × Bytes) :=
            | [] => .error "object header: end of file")
     | [] => .error "object header: end of file"
 
-/-- the object at `off`: header, value, stream framing with the given `/Length` resolver -/
-def readIndirect (file : Bytes) (off : Nat) (lenOf : SObj → R Nat) : R IObj :=
-  if off ≥ file.length then .error "object offset beyond the end of the file"
-  else if off > 0 && isReg (file.getD (off - 1) 0) then .error "object offset points into the middle of a token" else
-  let inp := file.drop off
+/-- the indirect object at the start of `inp` (which begins at absolute offset `base`): header,
+    value, stream framing with the given `/Length` resolver -/
+def readIndirectAt (inp : Bytes) (base : Nat) (lenOf : SObj → R Nat) : R (IObj × Bytes) :=
+  let total := inp.length
   match objHeader inp with
   | .error e => .error e
   | .ok (n, g, r0) =>
@@ -459,7 +463,9 @@ def readIndirect (file : Bytes) (off : Nat) (lenOf : SObj → R Nat) : R IObj :=
     | .error e => .error e
     | .ok (v, r2) =>
       let r3 := skipWs r2
-      if hasPrefix (bytesOfString "endobj") r3 then .ok { num := n, gen := g, val := v, stream := none }
+      if hasPrefix (bytesOfString "endobj") r3 then
+        let r4 := r3.drop 6
+        .ok ({ num := n, gen := g, val := v, stream := none, next := base + (total - r4.length) }, r4)
       else if hasPrefix (bytesOfString "stream") r3 then
         match v with
         | .dict d =>
@@ -469,7 +475,7 @@ def readIndirect (file : Bytes) (off : Nat) (lenOf : SObj → R Nat) : R IObj :=
             | 10 :: _ => 1
             | _ => 0
           if e == 0 then .error "stream: keyword not followed by CRLF or LF" else
-          let dataOff := file.length - (r4.length - e)
+          let dataOff := base + (total - (r4.length - e))
           (match dget d "Length" with
            | none => .error "stream: /Length missing"
            | some l =>
@@ -483,10 +489,18 @@ def readIndirect (file : Bytes) (off : Nat) (lenOf : SObj → R Nat) : R IObj :=
                else if !hasPrefix (bytesOfString "endstream") (r5.drop e2) then .error "stream: /Length does not end at EOL endstream"
                else
                  let r6 := skipWs ((r5.drop e2).drop 9)
-                 if hasPrefix (bytesOfString "endobj") r6 then .ok { num := n, gen := g, val := v, stream := some (dataOff, len) }
+                 if hasPrefix (bytesOfString "endobj") r6 then
+                   let r7 := r6.drop 6
+                   .ok ({ num := n, gen := g, val := v, stream := some (dataOff, len), next := base + (total - r7.length) }, r7)
                  else .error "stream: endobj missing")
         | _ => .error "stream keyword after a non-dictionary"
       else .error "object: endobj missing"
+
+/-- the object at offset `off` of the file -/
+def readIndirect (file : Bytes) (off : Nat) (lenOf : SObj → R Nat) : R IObj :=
+  if off ≥ file.length then .error "object offset beyond the end of the file"
+  else if off > 0 && isReg (file.getD (off - 1) 0) then .error "object offset points into the middle of a token" else
+  (readIndirectAt (file.drop off) off lenOf).map (·.1)
 
 /-! ### cross-reference streams (§7.5.8) -/
 
@@ -528,7 +542,7 @@ def unpredict (cols : Nat) : Nat → (prior data : Bytes) → R Bytes
     | [] => .ok []
     | ft :: rest =>
       if ft > 4 then .error "predictor: unknown PNG filter type"
-      else if rest.length < cols then .error "predictor: incomplete row"
+      else if (rest.take cols).length < cols then .error "predictor: incomplete row"
       else
         let row := unfilterRow ft 0 0 (rest.take cols) prior
         (unpredict cols fuel row (rest.drop cols)).map (row ++ ·)
@@ -557,7 +571,7 @@ def xrefRows (w0 w1 w2 : Nat) : Nat → Nat → Bytes → Table → R (Table × 
   | 0, _, data, acc => .ok (acc, data)
   | k+1, num, data, acc =>
     let wt := w0 + w1 + w2
-    if data.length < wt then .error "xref stream: data too short for /Index and /W" else
+    if (data.take wt).length < wt then .error "xref stream: data too short for /Index and /W" else
     let f0 := if w0 == 0 then 1 else beNat (data.take w0) 0
     let f1 := beNat ((data.drop w0).take w1) 0
     let f2 := beNat ((data.drop (w0 + w1)).take w2) 0
@@ -576,7 +590,7 @@ def xrefSubs (w0 w1 w2 : Nat) : List (Nat × Nat) → Bytes → Table → R (Tab
     | .error e => .error e
     | .ok (acc', data') => xrefSubs w0 w1 w2 rest data' acc'
 
-def readXRefStream (inflate : Bytes → Option Bytes) (file : Bytes) (off : Nat) : R (Table × List (Bytes × SObj)) :=
+def readXRefStream (inflate : Bytes → Option Bytes) (file : Bytes) (off : Nat) : R (Table × List (Bytes × SObj) × Nat × Nat) :=
   let direct : SObj → R Nat := fun l => match l with
     | .int i => if i < 0 then .error "stream: negative /Length" else .ok i.toNat
     | _ => .error "xref stream: /Length must be direct"
@@ -610,7 +624,7 @@ def readXRefStream (inflate : Bytes → Option Bytes) (file : Bytes) (off : Nat)
                 | .error e => .error e
                 | .ok (t, rest) =>
                   if rest != [] then .error "xref stream: data longer than /Index and /W say"
-                  else .ok (t.reverse, d))
+                  else .ok (t.reverse, d, io.next, io.num))
          | _ => .error "xref stream: /W is not three non-negative integers"
        | _, _, _ => .error "xref stream: /Type, /Size or /W missing")
     | _, _ => .error "xref stream: not a stream"
@@ -693,18 +707,17 @@ structure FileFacts where
   trailer : List (Bytes × SObj)
   objs : List Fact
 
-/-- every number below `size` is listed exactly once and no other number is listed -/
+/-- the numbers `i, i+1, …` in this order -/
+def consecutiveFrom : Nat → List Nat → Bool
+  | _, [] => true
+  | i, n :: ns => n == i && consecutiveFrom (i + 1) ns
+
+/-- every number below `size` is listed exactly once and no other number is listed
+    (subsections may come in any order: the numbers are sorted first unless they already ascend) -/
 def covered (t : Table) (size : Nat) : Bool :=
-  let marks : Option (Array Bool) :=
-    t.foldl (fun m e =>
-      match m with
-      | none => none
-      | some a =>
-        if e.1 < a.size then (if a.getD e.1 false then none else some (a.setIfInBounds e.1 true)) else none)
-      (some (Array.replicate size false))
-  match marks with
-  | some a => a.all id
-  | none => false
+  let nums := t.map (·.1)
+  nums.length == size &&
+    (consecutiveFrom 0 nums || consecutiveFrom 0 (nums.mergeSort (fun a b => decide (a ≤ b))))
 
 /-- `/Length`: a direct integer, or a reference to an in-use integer object (not compressed) -/
 def lengthResolver (file : Bytes) (t : Table) : SObj → R Nat
@@ -714,7 +727,7 @@ def lengthResolver (file : Bytes) (t : Table) : SObj → R Nat
     | some { kind := 1, a := off, b := g' } =>
       if g != g' then .error "stream: /Length refers to a wrong generation" else
       (match readIndirect file off (fun _ => .error "stream: /Length object is a stream") with
-       | .ok { num := n', gen := _, val := .int i, stream := none } =>
+       | .ok { num := n', gen := _, val := .int i, stream := none, next := _ } =>
          if n' != n then .error "stream: /Length object has another number"
          else if i < 0 then .error "stream: negative /Length" else .ok i.toNat
        | .ok _ => .error "stream: /Length object is not an integer"
@@ -723,33 +736,68 @@ def lengthResolver (file : Bytes) (t : Table) : SObj → R Nat
     | _ => .error "stream: /Length refers to a free object"
   | _ => .error "stream: /Length is neither an integer nor a reference"
 
-def checkObjects (inflate : Bytes → Option Bytes) (file : Bytes) (t : Table) : List (Nat × Entry) → R (List Fact)
-  | [] => .ok []
-  | (num, e) :: rest =>
-    let tailR := checkObjects inflate file t rest
-    if e.kind == 0 then tailR
-    else if e.kind == 1 then
-      match readIndirect file e.a (lengthResolver file t) with
+def insByOff (x : Nat × Entry) : List (Nat × Entry) → List (Nat × Entry)
+  | [] => [x]
+  | y :: ys => if x.2.a ≤ y.2.a then x :: y :: ys else y :: insByOff x ys
+
+/-- the in-use entries in the order of their offsets -/
+def inUseByOffset (t : Table) : List (Nat × Entry) :=
+  (t.filter fun e => e.2.kind == 1).foldl (fun acc x => insByOff x acc) []
+
+/-- The body of the file from offset `pos` (`rest = file.drop pos`) up to `endOff`: the in-use
+    objects follow one another in the order of their offsets, each filling the bytes up to the
+    next one except for white space and comments.  Hence every entry points exactly at its
+    object, and the body contains no object without an entry (in particular none whose number is
+    at or above `/Size`). -/
+def walkObjects (file : Bytes) (t : Table) (endOff : Nat) : List (Nat × Entry) → Nat → Bytes → R (List Fact)
+  | [], pos, rest =>
+    if endOff < pos then .error "body: the last object runs into the cross-reference section"
+    else if skipWs (rest.take (endOff - pos)) != [] then
+      .error s!"body: data without a cross-reference entry between offset {pos} and the cross-reference section"
+    else .ok []
+  | (num, e) :: es, pos, rest =>
+    if e.a < pos then .error s!"object {num}: offset {e.a} lies inside the preceding object"
+    else if skipWs (rest.take (e.a - pos)) != [] then
+      .error s!"object {num}: data without a cross-reference entry between offset {pos} and {e.a}"
+    else
+      let r1 := rest.drop (e.a - pos)
+      let limit := match es with
+        | (_, e2) :: _ => e2.a
+        | [] => endOff
+      if limit < e.a then .error s!"object {num}: offset beyond the cross-reference section" else
+      match readIndirectAt (r1.take (limit - e.a)) e.a (lengthResolver file t) with
       | .error er => .error s!"object {num}: {er}"
-      | .ok io =>
+      | .ok (io, r2) =>
         if io.num != num then .error s!"object {num}: entry points at object {io.num}"
         else if io.gen != e.b then .error s!"object {num}: generation {io.gen} in the file, {e.b} in the entry"
-        else tailR.map fun fs => { num := num, gen := io.gen, kind := 1, val := io.val, stream := io.stream } :: fs
-    else
-      -- compressed: the container must be an in-use generation-0 object stream
-      match tget t e.a with
-      | some { kind := 1, a := off, b := 0 } =>
-        (match readIndirect file off (lengthResolver file t) with
+        else if skipWs r2 != [] then .error s!"object {num}: data without a cross-reference entry after endobj"
+        else
+          match walkObjects file t endOff es limit (r1.drop (limit - e.a)) with
+          | .error er => .error er
+          | .ok fs => .ok ({ num := num, gen := io.gen, kind := 1, val := io.val, stream := io.stream } :: fs)
+
+/-- the compressed objects: field 2 of a type-2 entry must name an in-use generation-0 object
+    that is an object stream, field 3 the index of the member -/
+def checkCompressed (inflate : Bytes → Option Bytes) (file : Bytes) (t : Table) : List (Nat × Entry) → List Fact → R (List Fact)
+  | [], acc => .ok acc.reverse
+  | (num, e) :: rest, acc =>
+    if e.kind != 2 then checkCompressed inflate file t rest acc else
+    match tget t e.a with
+    | some { kind := 1, a := off, b := 0 } =>
+      (match readIndirect file off (lengthResolver file t) with
+       | .error er => .error s!"object {num}: container {e.a}: {er}"
+       | .ok io =>
+         if io.num != e.a then .error s!"object {num}: container entry points at object {io.num}" else
+         match readObjStm inflate file io with
          | .error er => .error s!"object {num}: container {e.a}: {er}"
-         | .ok io =>
-           if io.num != e.a then .error s!"object {num}: container entry points at object {io.num}" else
-           match readObjStm inflate file io with
-           | .error er => .error s!"object {num}: container {e.a}: {er}"
-           | .ok os =>
-             match objStmMember os e.b num with
-             | .error er => .error s!"object {num}: {er}"
-             | .ok v => tailR.map fun fs => { num := num, gen := 0, kind := 2, val := v, stream := none } :: fs)
-      | _ => .error s!"object {num}: container {e.a} is not an in-use generation-0 object"
+         | .ok os =>
+           match objStmMember os e.b num with
+           | .error er => .error s!"object {num}: {er}"
+           | .ok v => checkCompressed inflate file t rest ({ num := num, gen := 0, kind := 2, val := v, stream := none } :: acc))
+    | _ => .error s!"object {num}: container {e.a} is not an in-use generation-0 object"
+
+/-- offset of the `startxref` keyword -/
+def startxrefIndex (file : Bytes) : Option Nat := lastIndex (bytesOfString "startxref") file
 
 def checkFile (inflate : Bytes → Option Bytes) (file : Bytes) : R FileFacts :=
   match checkHeader file with
@@ -761,25 +809,45 @@ def checkFile (inflate : Bytes → Option Bytes) (file : Bytes) : R FileFacts :=
       if off ≥ file.length then .error "startxref: offset beyond the end of the file"
       else if off > 0 && isReg (file.getD (off - 1) 0) then .error "startxref: offset points into the middle of a token" else
       let sec := file.drop off
-      let r : R (Table × List (Bytes × SObj)) :=
-        if hasPrefix (bytesOfString "xref") sec then readTable sec else readXRefStream inflate file off
+      let isTable := hasPrefix (bytesOfString "xref") sec
+      -- table, trailer, offset of the end of the section, number of the xref stream (if any)
+      let r : R (Table × List (Bytes × SObj) × Nat × Option Nat) :=
+        if isTable then (readTable sec).map fun (t, d, rest) => (t, d, file.length - rest.length, none)
+        else (readXRefStream inflate file off).map fun (t, d, nx, n) => (t, d, nx, some n)
       match r with
       | .error e => .error e
-      | .ok (t, tr) =>
+      | .ok (t, tr, secEnd, xnum) =>
         match dget tr "Size" with
         | some (.int size) =>
           if size < 0 then .error "trailer: negative /Size"
           else if !covered t size.toNat then .error "cross-reference: not exactly one entry for every number below /Size"
           else if (dget tr "Prev").isSome then .error "trailer: /Prev in a freshly written file"
+          else if (match xnum with | some n => decide (n ≥ size.toNat) | none => false) then
+            .error "xref stream: its own object number is not below /Size"
           else
             match tget t 0 with
             | some e0 =>
               if e0.kind != 0 then .error "cross-reference: object 0 is not free"
-              else if hasPrefix (bytesOfString "xref") sec && e0.b != 65535 then .error "xref table: object 0 does not have generation 65535"
+              else if isTable && e0.b != 65535 then .error "xref table: object 0 does not have generation 65535"
               else
-                match checkObjects inflate file t t with
+                -- the body: header, then the in-use objects in offset order, then the section
+                let body := (inUseByOffset t).filter fun e => e.2.a != off
+                let selfOk := (t.filter fun e => e.2.kind == 1 && e.2.a == off).all fun e =>
+                  !isTable && xnum == some e.1 && e.2.b == 0
+                if !selfOk then .error "cross-reference: an entry points at the cross-reference section itself" else
+                match walkObjects file t off body 8 (file.drop 8) with
                 | .error e => .error e
-                | .ok facts =>
+                | .ok facts1 =>
+                  if false then .error ""
+                  else if (match startxrefIndex file with
+                      | some i => file.length - (skipWs (file.drop secEnd)).length != i
+                      | none => true) then
+                    .error "tail: something stands between the cross-reference section and startxref"
+                  else
+                  match checkCompressed inflate file t t [] with
+                  | .error e => .error e
+                  | .ok facts2 =>
+                  let facts := facts1 ++ facts2
                   match dget tr "Root" with
                   | some (.ref rn rg) =>
                     (match facts.find? (fun f => f.num == rn && f.gen == rg) with
